@@ -41,6 +41,7 @@ def check(ctx):
         lib = ctx.load(cfg)
         frontend = "frontend" in lib.features
         kernel.R_node(ctx, lib, frontend)
+        kernel.R_new(ctx, lib)
         kernel.W_store(ctx, {"lib": lib})
         kernel.W_ctor(ctx, {"lib": lib})
         if frontend:
